@@ -140,7 +140,14 @@ EvTighten(e) ==
                     /\ Len(e.colb[1]) = Len(cols) /\ Len(e.colb[2]) = Len(cols))
      \* wide boxes are not enumerated: row bounds and combination counts through the closed forms (PuanPoly.RowBoundsExact states
      \* that they equal the enumeration), containment of solutions is left to the enumerable cases
-     \cup (IF e.wide THEN {} ELSE
+     \cup (IF e.wide THEN
+              \* ... except at the corners of the box (and the points next to them): a solution among them lies within the tightened bounds
+              PFail("contain", \A x \in { y \in RangeProduct(DOMAIN cols, [ j \in DOMAIN cols |-> 1 ], [ j \in DOMAIN cols |-> 4 ]) : TRUE } :
+                        LET pt == [ j \in DOMAIN cols |-> CASE x[j] = 1 -> cols[j].lo [] x[j] = 2 -> cols[j].hi
+                                                              [] x[j] = 3 -> (IF cols[j].lo < cols[j].hi THEN cols[j].lo + 1 ELSE cols[j].lo)
+                                                              [] OTHER -> (IF cols[j].lo < cols[j].hi THEN cols[j].hi - 1 ELSE cols[j].hi) ]
+                        IN (\A i \in DOMAIN rows : RowOk(rows[i], pt)) => \A j \in DOMAIN cols : lb[j] <= pt[j] /\ pt[j] <= ub[j])
+           ELSE
            PFail("contain", \A x \in S : \A j \in DOMAIN cols : lb[j] <= x[j] /\ x[j] <= ub[j])
            \cup PFail("contra_only_if_empty", (\E j \in DOMAIN cols : lb[j] > ub[j]) => S = {}))
      \cup PFail("no_widen", \A j \in DOMAIN cols : lb[j] >= cols[j].lo /\ ub[j] <= cols[j].hi)
